@@ -1,6 +1,7 @@
 """C01 - Parse accepts exactly the RFC 8259 language and reports failure coherently."""
 from vlib import *
 import p_text as T
+import p_dom as D
 import p_pda as P
 
 PADS_Q = [0, 1, 31, 32, 33, 63, 64, 65]
@@ -31,6 +32,8 @@ def run(tier):
                 f"x 4 documents; failures so far {len(ctx.fail)}")
         for r in rows[:2] + rows[-1:]:
             ctx.samples.append(dict(corpus=name, **T.describe(r)))
+    # life cycle (spec/Sonic.tla): accept / reject verdicts of Parse on a document with a history (reuse after success and failure)
+    D.lifecycle(ctx, "C01", builds[:2], 2 if q else 60, 25 if q else 40, 3)
     ctx.extra.update(replayed_cases=total, builds=builds, alignments=pads)
     ctx.assumptions += [
         "R-model spec/JsonText.tla (RFC 8259 recogniser; string grammar = DecodeString defined; overflow by Rounding.tla) is the only oracle",
@@ -43,4 +46,7 @@ def run(tier):
 
 
 def replay(path):
+    import json
+    if json.load(open(path)).get("replay", {}).get("harness") == "rt_dom.cpp":
+        return D.replay_file(path)
     return T.replay_file(path)
